@@ -556,10 +556,27 @@ def tree_features(prog):
 
     enum_lists = set()
 
+    def static_nat(e):
+        """the expression's own Erg type is Nat (whatever type the generator demanded of it: a Nat is accepted for an Int)"""
+        k = e[0]
+        if k == "lit":
+            return e[1] == "Nat"
+        if k == "var":
+            return e[2] == "Nat"
+        if k == "bin":
+            return e[4] == "Nat"
+        if k == "if":
+            return static_nat(e[2]) and static_nat(e[3])
+        if k == "len":
+            return True
+        if k in ("index", "call"):
+            return e[3] == "Nat"
+        return False
+
     def is_enum_nat(e):
         """the expression's static type is (a union of) natural literals produced by an if-expression: the if-expression
         itself, a variable defined by one, an element of a list (variable or literal) that contains one"""
-        if e[0] == "if" and e[4] == "Nat":
+        if e[0] == "if" and (e[4] == "Nat" or (static_nat(e[2]) and static_nat(e[3]))):
             return True
         if e[0] == "var" and e[1] in enum_vars:
             return True
